@@ -49,6 +49,8 @@ def observe_pairs(rep, rng, tier):
         # generous dt_max: the adaptive proposal is not clipped, so the step history (and anything it may wrongly depend
         # on, such as the save interval) shows in the trajectory
         dict(A=0.6, cur=3.0, adaptive=True, screening=False, T=0.6, dt_max=0.5),
+        # a time-dependent applied field (the update then also receives the previous potential and time step)
+        dict(A="ramp", cur=1.0, adaptive=True, screening=False, T=0.3),
         dict(A=0.5, cur=0.0, adaptive=False, screening=False, T=0.1),
     ]
     if tier == "thorough":
@@ -70,7 +72,8 @@ def observe_pairs(rep, rng, tier):
                 else:
                     opts = runs.make_options(td, **kw)
                 cur = {"source": ph["cur"], "drain": -ph["cur"]}
-                sol, _ = runs.traced_solve(dev, opts, A=ph["A"], currents=cur)
+                Afield = runs.ramp_field_param(0.1, 0.7, 0.2) if ph["A"] == "ramp" else ph["A"]
+                sol, _ = runs.traced_solve(dev, opts, A=Afield, currents=cur)
                 if var.get("output") == "temp":
                     # the temporary file is gone; the returned Solution carries the final frame in memory
                     d = sol.tdgl_data
